@@ -161,6 +161,16 @@ def _check_handler(r, idx, fi, h):
                 # signs, and that exception would escape from the handler itself
                 tainted = _tainted_templates(msg)
                 text = ' '.join(c.value for c in ast.walk(msg) if isinstance(c, ast.Constant) and isinstance(c.value, str))
+                unresolved = []
+                for nm in ast.walk(msg):
+                    # module-level message pieces (a hoisted literal prefix) are part of the text
+                    if isinstance(nm, ast.Name) and isinstance(nm.ctx, ast.Load) and nm.id not in ('student_input', err, 'str', 'map', 'repr', 'format'):
+                        vals = module.assigns.get(nm.id, [])
+                        lit = [_literal_text(v) for v in vals]
+                        if len(vals) == 1 and lit[0] is not None:
+                            text += ' ' + lit[0]
+                        elif nm.id not in fi.all_params and nm.id != 'self':
+                            unresolved.append(nm.id)
                 if tainted:
                     r.violation(construct + ' [generic]', 'the submission is part of a format template (`%s`): a brace or percent sign in '
                                 'the student\'s text makes the formatting itself raise IndexError/KeyError/ValueError inside the handler, '
@@ -168,6 +178,9 @@ def _check_handler(r, idx, fi, h):
                                 expected="constant template .format(student_input)", found=short(msg))
                 elif 'Could not check' in text:
                     r.ok(construct + ' [generic]', 'StudentFacingError naming the submission', where)
+                elif unresolved:
+                    r.undecided(construct + ' [generic]', 'the generic message is built from `%s`, whose text is not a literal here'
+                                % ', '.join(sorted(set(unresolved))), where)
                 else:
                     r.violation(construct + ' [generic]', "generic message no longer reads 'Invalid Input: Could not check input(s) ...'",
                                 where, found=short(msg))
@@ -926,6 +939,13 @@ def d7_templates(ctx, idx):
                 continue
             calls = [n for n in walk_own(fi.node) if isinstance(n, ast.Call) and isinstance(n.func, ast.Attribute)
                      and n.func.attr == 'format' and not (isinstance(n.func.value, ast.Name) and n.func.value.id in ('string', 'np', 'numpy'))]
+            # f-strings and %-formatting with a literal left operand are literal templates by construction; counting them keeps
+            # the instance count stable when .format calls are modernised
+            for n in walk_own(fi.node):
+                if isinstance(n, ast.JoinedStr) and any(isinstance(v, ast.FormattedValue) for v in n.values):
+                    r.ok('%s: `%s`' % (fi.qualname[len('mitxgraders.'):], short(n)), 'f-string: literal template by construction', lib.loc(fi, n))
+                elif isinstance(n, ast.BinOp) and isinstance(n.op, ast.Mod) and _literal_text(n.left) is not None:
+                    r.ok('%s: `%s`' % (fi.qualname[len('mitxgraders.'):], short(n)), '%-formatting of a literal template', lib.loc(fi, n))
             if not calls:
                 continue
             cfgs = {}
